@@ -110,7 +110,7 @@ func lenRange(r yang.YangRange) string {
 // enumTypeFor finds the Go enum type name among the enum types registered for the leaf whose
 // ΛEnum table covers the given YANG names.
 func (c *schemaCtx) enumTypeFor(e *yang.Entry, names []string) string {
-	ets := c.root.ΛEnumTypeMap()[e.Path()]
+	ets := c.root.ΛEnumTypeMap()[schemaDataPath(e)]
 	best := ""
 	for _, t := range ets {
 		tbl := c.pkg.Enum[t.Name()]
@@ -129,6 +129,17 @@ func (c *schemaCtx) enumTypeFor(e *yang.Entry, names []string) string {
 		}
 	}
 	return best
+}
+
+// schemaDataPath mirrors ytypes.absoluteSchemaDataPath (the key of ΛEnumTypes).
+func schemaDataPath(e *yang.Entry) string {
+	out := []string{e.Name}
+	for s := e.Parent; s != nil; s = s.Parent {
+		if !util.IsChoiceOrCase(s) && !util.IsFakeRoot(s) {
+			out = append([]string{s.Name}, out...)
+		}
+	}
+	return "/" + strings.Join(out, "/")
 }
 
 func identityNames(id *yang.Identity) []string {
@@ -524,11 +535,12 @@ type treeGen struct {
 	pkg  *reg.Pkg
 	root ygot.ValidatedGoStruct
 	// knobs
-	pField    float64 // probability that an optional field is set
-	maxList   int
-	emptyLL   bool // allow non-nil empty leaf-lists
-	nastyStr  bool // strings drawn from the nasty alphabet
-	leafCount int
+	pField     float64 // probability that an optional field is set
+	maxList    int
+	emptyLL    bool // allow non-nil empty leaf-lists
+	emptyConts bool // allow empty non-presence containers
+	nastyStr   bool // strings drawn from the nasty alphabet
+	leafCount  int
 }
 
 func newTreeGen(rng *rand.Rand, pkg *reg.Pkg) *treeGen {
@@ -706,7 +718,7 @@ func (g *treeGen) enumGoType(e *yang.Entry, t *yang.YangType) reflect.Type {
 		names = identityNames(t.IdentityBase)
 	}
 	want := c.enumTypeFor(e, names)
-	for _, rt := range g.root.ΛEnumTypeMap()[e.Path()] {
+	for _, rt := range g.root.ΛEnumTypeMap()[schemaDataPath(e)] {
 		if rt.Name() == want {
 			return rt
 		}
@@ -899,6 +911,9 @@ func (g *treeGen) setField(sp, fv reflect.Value, sf reflect.StructField, ce *yan
 		if mx := ce.ListAttr; mx != nil && mx.MaxElements != 0 && uint64(sl.Len()) > mx.MaxElements {
 			sl = sl.Slice(0, int(mx.MaxElements))
 		}
+		if sl.Len() == 0 && !g.emptyLL {
+			return
+		}
 		fv.Set(sl)
 		g.leafCount++
 	case ce.IsList():
@@ -907,7 +922,10 @@ func (g *treeGen) setField(sp, fv reflect.Value, sf reflect.StructField, ce *yan
 		if ft.Kind() == reflect.Ptr {
 			c := reflect.New(ft.Elem())
 			g.populate(c, ce, depth+1, nil)
-			fv.Set(c)
+			// canonical trees: an empty non-presence container is not data and is left nil
+			if !c.Elem().IsZero() || (util.IsYangPresence(sf) && g.rng.Intn(2) == 0) || g.emptyConts {
+				fv.Set(c)
+			}
 		}
 	}
 }
@@ -977,8 +995,19 @@ func (g *treeGen) setList(sp, fv reflect.Value, sf reflect.StructField, ce *yang
 	case ft.Kind() == reflect.Map:
 		m := reflect.MakeMap(ft)
 		entryT := ft.Elem().Elem()
+		seenKeys := map[string]bool{}
 		for j := 0; j < n; j++ {
 			ent, keyVals, _ := g.newEntry(entryT, ce, depth)
+			// wrapper-union keys are pointers: avoid two entries with equal key values
+			ks := ""
+			for _, kv := range keyVals {
+				t, _ := scalarTerm(kv)
+				ks += t + "|"
+			}
+			if seenKeys[ks] {
+				continue
+			}
+			seenKeys[ks] = true
 			var key reflect.Value
 			if ft.Key().Kind() == reflect.Struct && len(keyVals) == ft.Key().NumField() && !ft.Key().Implements(goEnumT) {
 				key = reflect.New(ft.Key()).Elem()
